@@ -160,14 +160,12 @@ def check_text(backend_key, base, new, info, ep_names, spec, rep, files, kind, p
             return
     fwd, conflicts = P.id_map(bt, nt)
     if fwd is None:
-        rep.report("%s:shape:%s" % (b, ",".join(sorted(pattern_of(t) for t in plan.values()))[:80]),
-                   what_prefix + "changes the emitted code beyond a renaming of identifiers (%s)" % conflicts, files)
+        stats.setdefault("shape_changes", []).append((b, dict(plan), conflicts, files))
         return
-    for c in conflicts:
-        if c[0] == "nonfunctional":
-            _, a, v1, v2 = c
-            rep.report("%s:split:%s" % (b, pattern_of(a)),
-                       what_prefix + "spells one baseline identifier %r in two ways (%r, %r): declaration and reference disagree" % (a, v1, v2), files)
+    for i, mb, mv in P.member_diffs(bt, nt)[:3]:
+        rep.report("%s:undeclared-member" % b,
+                   what_prefix + "accesses a member %r (token %d, baseline %r) that no struct of the output declares: "
+                   "declaration and reference are spelled differently" % (mv, i, mb), files)
     # every reference must resolve (C scoping, independent scan) to the declaration it resolves to in the baseline
     diffs = P.resolution_diffs(bt, nt)
     for i, db, dn in diffs[:3]:
@@ -282,6 +280,7 @@ def whole_program(ctx, tools, spec, tables, n_corpus, n_variants, rep):
             vjobs.append({"id": vid, "src": " ".join(vlex), "want": WANT})
             meta[vid] = (c, kind, plan, vlex)
     check_variants(ctx, tools, vjobs, meta, spec, rep, stats)
+    classify_shape_changes(ctx, tools, stats, rep)
     return stats
 
 
@@ -328,6 +327,56 @@ def check_variants(ctx, tools, vjobs, meta, spec, rep, stats):
                 ctx.sample({"program": c["name"], "variant": kind, "renaming": plan})
 
 
+def classify_shape_changes(ctx, tools, stats, rep):
+    """A renaming changed the emitted code beyond identifier spellings.  Decide whether the WGSL front end is
+    the cause: a user function / type whose name the lowerer resolves to a predeclared function or type first
+    (WGSL: a module-scope declaration shadows the predeclared name).  Each target name is tried alone in the
+    call position and in the type position of the probe program."""
+    changes = stats.pop("shape_changes", [])
+    if not changes:
+        return
+    words = sorted({t for _b, plan, _w, _f in changes for t in plan.values()})
+    t = lexcorr.tokens_impl(tools, [PROBE_TEMPLATE.encode()])[0]
+    lex, kinds = lexeme_list(t)
+    declared, frozen = P.classify(lex, kinds)
+    jobs = [{"id": "base", "src": PROBE_TEMPLATE, "want": ["hlsl"]}]
+    for w in words:
+        for slot in ("zqfv", "zqsv"):
+            jobs.append({"id": "%s/%s" % (slot, w), "src": " ".join(P.rename(lex, kinds, frozen, {slot: w})), "want": ["hlsl"]})
+    res = nagarun.parallel_batches(tools["nagadrive"], "compile", jobs, per_job_timeout=20.0, chunk=64)
+    base = ctok.tokens((res.get("base") or {}).get("hlsl", ""))
+    frontend = {}
+    for w in words:
+        for slot in ("zqfv", "zqsv"):
+            r = res.get("%s/%s" % (slot, w)) or {}
+            if "hlsl" not in r:
+                if "err" in r:
+                    frontend[w] = (slot, "rejected: %s" % r["err"][:120], jobs[0]["src"])
+                continue
+            fwd, why = P.id_map(base, ctok.tokens(r["hlsl"]))
+            if fwd is None:
+                src = next(j["src"] for j in jobs if j["id"] == "%s/%s" % (slot, w))
+                frontend[w] = (slot, why, src)
+    stats["shape_changes_total"] = len(changes)
+    stats["shape_changes_frontend"] = 0
+    for b, plan, why, files in changes:
+        hit = [w for w in plan.values() if w in frontend]
+        if hit:
+            stats["shape_changes_frontend"] += 1
+            slot, fwhy, src = frontend[hit[0]]
+            f2 = dict(files)
+            f2["minimal.wgsl"] = src
+            rep.report("frontend:predeclared-shadow",
+                       "the WGSL front end resolves the user-declared %s %r to a predeclared function or type instead of the "
+                       "declaration in scope (%s); the emitted code of all backends then differs from the baseline beyond a renaming "
+                       "[first seen: %s, renaming %s]" % ("function" if slot == "zqfv" else "type", hit[0], fwhy, b,
+                                                           json.dumps(plan, ensure_ascii=False)), f2)
+        else:
+            rep.report("%s:shape:%s" % (b, ",".join(sorted(pattern_of(t) for t in plan.values()))[:80]),
+                       "%s: renaming %s changes the emitted code beyond a renaming of identifiers (%s)" % (
+                           b, json.dumps(plan, ensure_ascii=False), why), files)
+
+
 PROBE_TEMPLATE = ("struct zqsv { zqav: f32, zqmv: i32, }\nvar<private> zqgv: f32 = 1.0;\n"
                   "fn zqfv(zqpv: f32) -> f32 { var zqlv: zqsv; zqlv.zqav = zqpv + zqgv; return zqlv.zqav; }\n"
                   "@compute @workgroup_size(1) fn zqev() { zqgv = zqfv(2.0); }\n")
@@ -368,6 +417,7 @@ def keyword_probe(ctx, tools, spec, rep, words_per_backend):
     stats = {"variants": 0, "frontend_rejected_variants": 0, "outputs_checked": 0, "identifiers_mapped": 0,
              "entry_points_checked": 0, "variant_kinds": {}, "renamed_identifiers": 0}
     check_variants(ctx, tools, vjobs, meta, spec, rep, stats)
+    classify_shape_changes(ctx, tools, stats, rep)
     return {"keyword_probe_words": len(words), "keyword_probe_jobs": len(vjobs), "keyword_probe_outputs": stats["outputs_checked"],
             "keyword_probe_frontend_rejected": stats["frontend_rejected_variants"]}
 
